@@ -270,7 +270,7 @@ func (l *Ledger) Finish(verifDir string, start time.Time, seed int64, cmd string
 		"seed":        seed,
 		"level":       "other",
 		"coverage":    cov,
-		"assumptions": l.Assumptions,
+		"assumptions": append([]string{"go/types, go/ssa and the call graph describe the program that the Go compiler builds from the same sources"}, l.Assumptions...),
 		"wall_s":      time.Since(start).Seconds(),
 		"violations":  nviol,
 	}
